@@ -15,7 +15,7 @@ pub fn info() -> PropInfo {
     PropInfo {
         id: "C08",
         level: "exploration",
-        rule: "proptest: the harness is the issuer. A generated (claims, strategy) tree is packed by the harness's own encoder into payload + disclosures, with 0-3 deviations drawn from: member/element disclosures of arity 0..5 or not arrays, non-string / reserved (_sd, ...) / colliding / _sd_alg names, 2-element referenced from _sd, 3-element referenced from ..., unparseable referenced strings, digest repeated within one _sd / across levels / as placeholder, twin decoys, non-string _sd entries, non-array _sd, placeholders with extra members / non-string digests / as member values, _sd_alg absent / sha-256 / other strings, plus unreferenced, repeated, removed (one, half, all) and shuffled disclosures, `_sd` placed first / between / after the other members, a nested object carrying its own _sd_alg member ahead of the top-level one, and hand-made self-similar chains (every level references the next digest twice, depth 8..33); signed with the test key. Oracle = from-scratch implementation of draft-07 8.1 steps 3-4: MustReject => Err; Claims(v) => Err or exactly v; ambiguous spots not asserted. Non-trivial: MustReject case, or an Ok whose claims were compared. Distinct: hash of the case JSON.",
+        rule: "proptest: the harness is the issuer. A generated (claims, strategy) tree is packed by the harness's own encoder into payload + disclosures, with 0-3 deviations drawn from: member/element disclosures of arity 0..5 or not arrays, non-string / reserved (_sd, ...) / colliding / _sd_alg names, 2-element referenced from _sd, 3-element referenced from ..., unparseable referenced strings, digest repeated within one _sd / across levels / as placeholder, twin decoys, non-string _sd entries, non-array _sd, placeholders with extra members / non-string digests / as member values, _sd_alg absent / sha-256 / other strings, plus unreferenced, repeated, removed (one, half, all) and shuffled disclosures, `_sd` placed first / between / after the other members, a nested object carrying its own _sd_alg member ahead of the top-level one, and hand-made self-similar chains (every level references the next digest twice, depth 8..33); signed with the test key; one case in five confirms a holder key in a visible `cnf`, carries a valid key-binding JWT made by the harness and is verified with aud / nonce. Oracle = from-scratch implementation of draft-07 8.1 steps 3-4: MustReject => Err; Claims(v) => Err or exactly v; ambiguous spots not asserted. Non-trivial: MustReject case, or an Ok whose claims were compared. Distinct: hash of the case JSON.",
         assumptions: &[
             "literal reading of the draft where it is silent (an _sd that is not an array of strings, or a '...' object with other members, carries no embedded digest); Err is always accepted there",
             "what becomes of a member named _sd_alg below the top level, and a non-string _sd_alg, are not asserted (a top-level unsupported _sd_alg must be refused whatever sits below)",
@@ -73,7 +73,7 @@ fn extreme_tree() -> BoxedStrategy<sdjwt_model::tree::MNode> {
 /// before noticing does 2^depth work.
 fn doubling_chain() -> BoxedStrategy<Case> {
     (doubling_chain_parts(), fmt_strategy())
-        .prop_map(|((payload, disclosures), fmt)| C08Case { payload, disclosures, fmt, alg: Alg::HS256, deviations: vec!["handmade:doubling_chain".into()] })
+        .prop_map(|((payload, disclosures), fmt)| C08Case { payload, disclosures, fmt, alg: Alg::HS256, deviations: vec!["handmade:doubling_chain".into()], kb: None })
         .boxed()
 }
 
@@ -86,6 +86,22 @@ fn packed_strategy() -> BoxedStrategy<Case> {
         12 => claims_and_strategy(ClaimCfg::FULL, HONEST_PATHS).prop_map(|(claims, strat)| mark(&claims, &strat).unwrap()),
         2 => extreme_tree(),
     ];
+    // one tree in five confirms the EC test holder key in a visible top-level `cnf` (an ordinary
+    // member for the packer, so the name can collide like any other); those cases carry a valid
+    // key-binding JWT and the verifier is asked to check it
+    let tree = (tree, 0u8..5).prop_map(|(t, k)| {
+        use sdjwt_model::tree::{MNode, Member};
+        match (t, k) {
+            (MNode::Obj(mut members), 0) => {
+                members.retain(|m| m.name != "cnf");
+                let jwk = sdjwt_model::keys::HolderKey::Ec.jwk_value().unwrap();
+                let cnf = mark(&json!({"jwk": jwk}), &sdjwt_model::tree::Strat::NoSD).unwrap();
+                members.push(Member { name: "cnf".into(), hidden: false, node: cnf });
+                (MNode::Obj(members), true)
+            }
+            (t, _) => (t, false),
+        }
+    });
     (
         tree,
         choices_strategy(),
@@ -101,7 +117,7 @@ fn packed_strategy() -> BoxedStrategy<Case> {
         proptest::collection::vec(any::<u16>(), 0..6),
         0u8..32,
     )
-        .prop_map(|(tree, ch, budget, sd_alg, fmt, alg, decoys, list_ops, nest)| {
+        .prop_map(|((tree, with_kb), ch, budget, sd_alg, fmt, alg, decoys, list_ops, nest)| {
             let mut c = Choices::new(&ch);
             let sd_alg_dev = matches!(&sd_alg, Some(Value::String(s)) if s != "sha-256");
             let packed = Packer::new(&mut c, 18, budget, decoys).pack_root(&tree, sd_alg);
@@ -170,7 +186,8 @@ fn packed_strategy() -> BoxedStrategy<Case> {
                 }
                 payload = np;
             }
-            C08Case { payload: Value::Object(payload), disclosures, fmt, alg, deviations }
+            let kb = if with_kb { Some(("https://verifier.example/c08".to_string(), format!("n-{}", nest))) } else { None };
+            C08Case { payload: Value::Object(payload), disclosures, fmt, alg, deviations, kb }
         })
         .boxed()
 }
